@@ -35,11 +35,11 @@ ASSUMPTIONS = [
     'numeric coefficients only (int / float / complex); sympy coefficients are not modelled',
     'operators are in the state their class maintains (QubitOperator terms index-sorted, BosonOperator / QuadOperator terms index-sorted by the constructor, Majorana terms strictly increasing); `terms` dictionaries edited by hand into other shapes are out of scope',
     'comparisons whose decision has a relative margin < 1e-9 (where double rounding of abs / multiplication could matter) are discarded and counted, never compared',
-    'is_hermitian of InteractionOperator / sparse matrices / numpy arrays is not covered here (numeric kernels); FermionOperator and BosonOperator is_hermitian are covered by the Spec oracle only (their Model is normal ordering, C03)',
+    'is_hermitian of InteractionOperator / sparse matrices / numpy arrays is not covered here (numeric kernels)',
 ]
 OPEN_STATEMENTS = [
-    'majorana_terms_commute_iff against the Spec action actM (Clifford relations on bit masks) is not proved; proved instead: the shortcut agrees with the Model product for ALL index lists (commutes_shortcut_iff_products_equal); the denotation of products is checked by the spec.eq oracle',
-    'is_hermitian: no theorem connects hermitian_conjugated to the adjoint of the denoted linear map (oracle only); for QuadOperator the implementation is incomplete (known finding F02e)',
+    'commutes_with general path (self*other == other*self): the denotation of the Model product mmul is a C01 statement; here the shortcut is proved equivalent both to the Model products being equal and to commutation in the Spec (majorana_terms_commute_iff); operators with several terms are covered by the spec.eq oracle',
+    'is_hermitian: proved for FermionOperator (is_hermitian_fermion_iff: Hermitian in the Spec <=> the two normal-ordered dictionaries have equal coefficients; completeness of the coded test in the exact regime); for BosonOperator / QubitOperator / QuadOperator only the Model tie and the Spec oracle; for QuadOperator the implementation is incomplete (known finding F02e)',
     'closeRel / npIsclose are stated over squares of absolute values; the equivalence with the real-number formulas involving sqrt is elementary and not formalised',
     'float rounding inside abs()/hypot and tol*max(..) is outside the Model (guarded by the 1e-9 margin rule)',
 ]
@@ -876,7 +876,7 @@ def stream_hermitian(ctx):
     s = Stream('is-hermitian', 'qubit / fermion / boson / quad operators on <= 3 modes, terms of length <= 4: B + B^dagger, '
                'random B, Hermitian operators plus a non-trivially spelled zero (t - normal_ordered(t)), small '
                'anti-Hermitian parts; Spec: A = A^dagger as linear maps (involution from its definition, spec.eq); '
-               'Model (qubit, quad): hermitian_conjugated + isclose as coded')
+               'Model: hermitian_conjugated (+ normal ordering for fermions / bosons) + isclose as coded')
     rng = rng_for(ctx.seed, 'c02-herm')
     n = budget(ctx.tier, 120, 1500)
     if ctx.drift:
@@ -920,9 +920,8 @@ def stream_hermitian(ctx):
         jd = enc_raw(cls, dagger(cls, A.terms))
         d = max([len(t) for t in A.terms] + [0])
         oreqs.append({'op': 'spec.eq', 'alg': ALG[cls], 'n': nm, 'd': d, 'lhs': ['leaf', ja], 'rhs': ['leaf', jd]})
-        if cls in ('qubit', 'quad'):
-            mreqs.append({'op': 'c02.hermitian', 'cls': cls, 'a': ja})
-            midx.append(i)
+        mreqs.append({'op': 'c02.hermitian', 'cls': cls, 'a': ja})
+        midx.append(i)
     ans = ctx.driver.run(oreqs + mreqs)
     from common import canon_op_json
     for i, (cls, A, r, hcA, tag, nm) in enumerate(rows):
